@@ -237,8 +237,36 @@ fn hostile_size(rng: &mut Rng, len: usize) -> usize {
 }
 
 /// The seeded probe addressed by `rng`.
+fn uint7(out: &mut Vec<u8>, mut n: usize) {
+    let mut tmp = vec![(n & 0x7f) as u8];
+    n >>= 7;
+    while n > 0 {
+        tmp.push((n & 0x7f) as u8 | 0x80);
+        n >>= 7;
+    }
+    tmp.reverse();
+    out.extend(tmp);
+}
+
+/// `depth` nested single-chunk STRIPE levels around a tiny CAT stream (rANS Nx16 and the arithmetic coder share
+/// the framing): decoders that recurse once per level without a bound overflow the stack.
+pub fn nested_stripes(depth: usize) -> Vec<u8> {
+    let mut s = vec![0x20u8, 0x01, 0x41];
+    for _ in 0..depth {
+        let mut t = vec![0x08u8, 0x01, 0x01];
+        uint7(&mut t, s.len());
+        t.extend_from_slice(&s);
+        s = t;
+    }
+    s
+}
+
 pub fn seeded_probe(rng: &mut Rng) -> CodecProbe {
     let codec = rng.usize_below(CODECS.len());
+    if (codec == 1 || codec == 2) && rng.chance(1, 400) {
+        let depth = *rng.pick(&[3usize, 40, 3000, 30_000]);
+        return CodecProbe { codec, input_class: 0, desc: format!("{}: {depth} nested STRIPE levels around a 1-byte CAT stream", CODECS[codec]), bytes: nested_stripes(depth), size: 1 };
+    }
     let mode = rng.below(10);
     if mode < 3 {
         // arbitrary bytes; the first bytes are biased towards valid flag / order / size values
